@@ -212,6 +212,10 @@ def build_instances(trace, meta):
                 h_mid = hold_of(P)
                 if main == "send" and not ws:
                     h_mid += 1
+                if main == "shutdown":
+                    # get_shutdown / shutdown drop the queued adds and the queued fee update; which entries those are
+                    # is the model's knowledge (it tracks the item kinds), the size is compared afterwards
+                    h_mid = min(h_mid, hold_of(N))
                 if main == "claim" and ws and "LatestCounterpartyCommitmentTXInfo" not in ws[0][3] and "LatestCounterpartyCommitment" not in ws[0][3]:
                     h_mid += 1
                 for w in ws[used:]:
@@ -222,8 +226,19 @@ def build_instances(trace, meta):
                     used += 1
                 hn = hold_of(N)
                 if hn > h_mid:
+                    # kinds of the newly queued entries: the fee update, then as many adds as the AddHTLC count grew by
+                    # (a send queued above is already counted), the rest are fails
+                    fee_new = N["hcfee"] and not P["hcfee"]
+                    adds = (hn - h_mid) if N.get("hca") is None or P.get("hca") is None else max(
+                        0, N["hca"] - P["hca"] - (1 if (main == "send" and not ws) else 0))
                     for j in range(hn - h_mid):
-                        labels.append("LQueue %s" % ("HFee" if (N["hcfee"] and not P["hcfee"] and j == 0) else "HAdd"))
+                        if fee_new and j == 0:
+                            labels.append("LQueue HFee")
+                        elif adds > 0:
+                            labels.append("LQueue HAdd")
+                            adds -= 1
+                        else:
+                            labels.append("LQueue HFail")
                 elif hn < h_mid:
                     labels.append("LFreeHold true VInProgress")
             # closing_signed leaving: the model must agree that the negotiation may proceed
